@@ -47,6 +47,25 @@ def search_c01():
                 return _fail('calc_rdm', dict(method=method, measurements=X.tolist(), labels=labels.tolist()),
                              [float(x) for x in got], [float(x) for x in want],
                              f'calc_rdm(method={method!r}) is not the formula of the property on the condition means')
+    # patterns used as they are (no descriptor: one observation per condition), also with an integer dtype (spike counts)
+    for rep in range(40):
+        n_cond, p = rs.randint(2, 6), rs.randint(1, 4)
+        Xi = rs.randint(0, 30, size=(n_cond, p))
+        A = rs.randint(-2, 3, size=(p, p)) / 4.0
+        prec = A @ A.T + 0.5 * np.eye(p)
+        for dt in (np.int64, np.int32, np.float32, np.float64):
+            X = Xi.astype(dt)
+            for method in ('euclidean', 'mahalanobis'):
+                kw = dict(noise=prec) if method == 'mahalanobis' else {}
+                got = calc_rdm(rsatoolbox.data.Dataset(X.copy()), method=method, descriptor=None, **kw).dissimilarities[0]
+                Xf = Xi.astype(float)
+                want = [((Xf[i] - Xf[j]) @ (prec if method == 'mahalanobis' else np.eye(p)) @ (Xf[i] - Xf[j])) / p
+                        for i in range(n_cond) for j in range(i + 1, n_cond)]
+                if not np.allclose(got, want, rtol=1e-5 if dt == np.float32 else 1e-9, atol=1e-12):
+                    return _fail('calc_rdm', dict(method=method, measurements=Xi.tolist(), dtype=np.dtype(dt).name, descriptor=None,
+                                                  precision=prec.tolist()),
+                                 [float(x) for x in got], [float(x) for x in want],
+                                 f'calc_rdm(method={method!r}) is not the formula of the property on the patterns of dtype {np.dtype(dt).name}')
     return None
 
 
@@ -358,6 +377,16 @@ def search_c18():
             if cv != want_c or pv != want_p:
                 return _fail('make_design', dict(n_cond=n_cond, n_part=n_part), dict(cond_vec=cv, part_vec=pv),
                              dict(cond_vec=want_c, part_vec=want_p), 'the design does not list every condition exactly once per partition')
+    # the numbers of conditions / partitions as narrow NumPy integers (e.g. labels.max() + 1 of a compact label array)
+    for dt, n_cond, n_part in ((np.uint8, 20, 16), (np.int8, 12, 11), (np.int16, 200, 180), (np.uint8, 3, 2), (np.int32, 7, 5)):
+        cv, pv = make_design(dt(n_cond), dt(n_part))
+        cv, pv = [float(x) for x in cv], [float(x) for x in pv]
+        want_c = [float(c) for _ in range(n_part) for c in range(n_cond)]
+        want_p = [float(p) for p in range(n_part) for _ in range(n_cond)]
+        if cv != want_c or pv != want_p:
+            return _fail('make_design', dict(n_cond=n_cond, n_part=n_part, dtype=np.dtype(dt).name),
+                         dict(n_obs=len(cv), cond_vec=cv[:40], part_vec=pv[:40]), dict(n_obs=len(want_c), cond_vec=want_c[:40], part_vec=want_p[:40]),
+                         'the design does not list every condition exactly once per partition')
     return None
 
 
